@@ -4,7 +4,10 @@ use std::{
     sync::Arc,
 };
 
+#[cfg(not(feature = "verif"))]
 use parking_lot::{RwLock, RwLockReadGuard};
+#[cfg(feature = "verif")]
+use rawdb::verif::{RwLock, RwLockReadGuard};
 use rawdb::{Region, RegionMetadata};
 
 use crate::{AnyStoredVec, BUFFER_SIZE, Pages, VecIndex, VecValue, unlikely};
@@ -117,6 +120,12 @@ where
             self.file.seek(SeekFrom::Start(absolute_offset)).unwrap();
         }
 
+        #[cfg(feature = "verif")]
+        crate::verif::file_read(
+            absolute_offset as usize,
+            total_bytes,
+            "CompressedIoSource::refill_buffer",
+        );
         self.file
             .read_exact(&mut self.buffer[..total_bytes])
             .unwrap();
